@@ -305,4 +305,22 @@ def two_level_cases(rng, n):
             samples.append({"p": {"k": 3, "n": "c", "f": None}, "q": p2})
         env = {"dkr": ["k\\d"]} if wrap in ("dict", "dictlist") else {}
         cases.append(([("Root", samples)], env, rng.choice([[("exact", 0)], [("percent", 50)], [("number", 2)], [("percent", 70), ("number", 10)], [("number", 1)]]), "two"))
+    # parents that are LIST ELEMENTS (their field types were hashed while still plain dicts) with an optional wrapper around
+    # look-alike children that the policy keeps apart (one common key < number_2)
+    for _ in range(max(4, n // 6)):
+        wrapk = rng.choice(["list", "direct", "dict"])
+
+        def C(v):
+            c = {"k": v}
+            return [c] if wrapk == "list" else {"k1": c} if wrapk == "dict" else c
+        # first parent: the field is a plain, always present value; second and third: optional, wrapping look-alike children
+        first = rng.choice(["s", 1, {"other": 1}, None])
+        s1 = {"o": [{"a": 0, "b": 0, "z": first}, {"a": 9, "b": 9, "z": first}],
+              "p": [{"a": 1, "b": 2, "z": C(1)}, {"a": 1, "b": 2}], "q": [{"a": 1, "b": 3, "z": C(rng.choice([2, 3]))}, {"a": 2, "b": 1}]}
+        if rng.random() < 0.5:
+            s1["r"] = [{"a": 5, "b": 5, "z": C(7)}, {"a": 6, "b": 6}]
+        if rng.random() < 0.3:
+            del s1["o"]
+        env = {"dkr": ["k\\d"]} if wrapk == "dict" else {}
+        cases.append(([("Root", [s1])], env, rng.choice([[("number", 2)], [("number", 2)], [("number", 3)], [("percent", 60)]]), "look"))
     return cases
